@@ -37,7 +37,9 @@ func init() {
 		"(*regexp.Regexp).NumSubexp":   func(fr *frame, a []value) value { return reOf(a[0]).NumSubexp() },
 		"(*regexp.Regexp).Longest":     func(fr *frame, a []value) value { reOf(a[0]).Longest(); return nil },
 		"(*regexp.Regexp).SubexpNames": func(fr *frame, a []value) value { return strSlice(reOf(a[0]).SubexpNames()) },
-		"(*regexp.Regexp).SubexpIndex": func(fr *frame, a []value) value { return reOf(a[0]).SubexpIndex(fr.i.concStr(a[1], "regexp subexp name")) },
+		"(*regexp.Regexp).SubexpIndex": func(fr *frame, a []value) value {
+			return reOf(a[0]).SubexpIndex(fr.i.concStr(a[1], "regexp subexp name"))
+		},
 		"(*regexp.Regexp).FindString": func(fr *frame, a []value) value {
 			return reOf(a[0]).FindString(fr.i.concStr(a[1], "regexp FindString"))
 		},
